@@ -62,6 +62,161 @@ EXC_NAMES = ["division_by_zero", "wrong_array_size", "index_out_of_bounds", "inv
              "nil_pointer", "ffi_fail"]
 
 
+# ---- operation history x built-in -------------------------------------------------------------------
+# Every built-in goes through back/libvm.c libvm_execute_build_in, which turns the floating-point status
+# flags left by the C library function into the exception of the call.  Decision rule (C99 Annex F
+# classification of the built-in's OWN result; the entries are confirmed by the runs with the empty
+# prefix):
+#   invalid_domain    domain error: sqrt(x < 0), log(x < 0), pow(x < 0, non-integer), sin/cos/tan(+-inf)
+#   division_by_zero  pole error:   log(0), pow(0, y < 0)
+#   overflow          finite arguments, result magnitude above FLT_MAX: exp(1000), pow(10, 100)
+#   underflow         non-zero result below FLT_MIN (subnormal or 0): exp(-1000), exp(-100), pow(10, -100),
+#                     sin/tan(subnormal)
+#   otherwise         no exception, the value is delivered (quiet nan / inf arguments propagate: sqrt(inf),
+#                     exp(+-inf), log(inf), f(nan), pow(nan, 0) = 1; results that are merely inexact)
+#   print*, str*, ord, chr, length, assert* never fail on non-nil arguments
+# The outcome of a call is a function of its arguments only: whatever float / double arithmetic ran
+# before it (overflow to inf, underflow, inexact, nan from inf - inf, 0 * inf, inf / inf, nan comparisons,
+# conversions, earlier built-ins that failed and were caught) raises no exception of the language and must
+# not change what the built-in does.
+FBIG = "1" + "0" * 30 + ".0"            # 1e30
+FMAX = "3" + "0" * 38 + ".0"            # 3e38 (finite in single precision)
+FTINY = "0." + "0" * 29 + "1"           # 1e-30
+FEPS = "0." + "0" * 9 + "1"             # 1e-10
+DBIG = "1" + "0" * 200 + ".0d"          # 1e200 (double)
+
+HB_HELPERS = """func fid(x : float) -> float { x }
+func fbig() -> float { %s }
+func fmax() -> float { %s }
+func ftiny() -> float { %s }
+func feps() -> float { %s }
+func dbig() -> double { %s }
+func fmul(x : float, y : float) -> float { x * y }
+func finf() -> float { fmul(fbig(), fbig()) }
+func fnan() -> float { let i = finf(); i - i }
+func fden() -> float { fmul(ftiny(), feps()) }
+func sel(t : int, a : float, b : float) -> float { t == 0 ? a : b }
+func toint(n : int) -> int { n }
+func pxlog0() -> int { log(fid(0.0)) > 0.0 ? 1 : 2 } catch (division_by_zero) { 0 }
+func pxexpbig() -> int { exp(fid(1000.0)) > 0.0 ? 1 : 2 } catch (overflow) { 0 }
+func pxsqrtneg() -> int { sqrt(fid(0.0 - 1.0)) > 0.0 ? 1 : 2 } catch (invalid_domain) { 0 }
+func pxintdiv() -> int { 1 / zero() } catch (division_by_zero) { 0 }
+""" % (FBIG, FMAX, FTINY, FEPS, DBIG)
+
+# prefix -> statements (float / double arithmetic that raises no exception of the language)
+HB_PREFIX = {
+    "none":               [],
+    "exact":              ["let hb1 = fid(1.5) + fid(2.25)"],
+    "inexact-div":        ["let hb1 = fid(1.0) / fid(3.0)"],
+    "inexact-int2float":  ["let hb1 = (zero() + 16777217) + fid(0.5)"],
+    "inexact-float2int":  ["let hb1 = toint(fid(2.5))"],
+    "overflow-mul":       ["let hb1 = fbig() * fbig()"],
+    "overflow-add":       ["let hb1 = fmax() + fmax()"],
+    "overflow-double":    ["let hb1 = dbig() * dbig()"],
+    "overflow-array":     ["let hb1 = [ fmax() ] : float + [ fmax() ] : float"],
+    "overflow-loop":      ["var hb1 = fid(1.0) * fbig()", "var hb2 = 0", "while (hb2 < 3) { hb1 = hb1 * hb1; hb2 = hb2 + 1 }"],
+    "overflow-in-callee": ["let hb1 = finf()"],
+    "underflow-zero":     ["let hb1 = ftiny() * ftiny()"],
+    "underflow-denormal": ["let hb1 = ftiny() * feps()"],
+    "nan-inf-minus-inf":  ["let hb1 = fbig() * fbig()", "let hb2 = hb1 - hb1"],
+    "nan-zero-times-inf": ["let hb1 = finf() * fid(0.0)"],
+    "nan-inf-div-inf":    ["let hb1 = finf() / finf()"],
+    "nan-compare":        ["let hb1 = (fnan() < fid(1.0)) ? 1 : 2"],
+    "caught-log0":        ["let hb1 = pxlog0()"],
+    "caught-exp-overflow": ["let hb1 = pxexpbig()"],
+    "caught-sqrt-neg":    ["let hb1 = pxsqrtneg()"],
+    "caught-int-div":     ["let hb1 = pxintdiv()"],
+}
+
+# built-in -> (failing argument classes [(class, args, exception)], non-failing [(class, args, check on hbr)])
+HB_MATH = {
+    "sqrt": ([("neg", ["fid(0.0 - 1.0)"], "invalid_domain"), ("neginf", ["0.0 - finf()"], "invalid_domain")],
+             [("four", ["fid(4.0)"], "hbr == 2.0"), ("two", ["fid(2.0)"], "hbr > 1.41 && hbr < 1.42"),
+              ("zero", ["fid(0.0)"], "hbr == 0.0"), ("inf", ["finf()"], "hbr > fbig()"), ("nan", ["fnan()"], "hbr != hbr"),
+              ("denormal", ["fden()"], "hbr > 0.0")]),
+    "log":  ([("zero", ["fid(0.0)"], "division_by_zero"), ("neg", ["fid(0.0 - 1.0)"], "invalid_domain")],
+             [("one", ["fid(1.0)"], "hbr == 0.0"), ("ten", ["fid(10.0)"], "hbr > 2.30 && hbr < 2.31"),
+              ("inf", ["finf()"], "hbr > fbig()"), ("nan", ["fnan()"], "hbr != hbr"), ("denormal", ["fden()"], "hbr < 0.0 - 87.0")]),
+    "exp":  ([("big", ["fid(1000.0)"], "overflow"), ("negbig", ["fid(0.0 - 1000.0)"], "underflow"),
+              ("to-denormal", ["fid(0.0 - 100.0)"], "underflow")],
+             [("zero", ["fid(0.0)"], "hbr == 1.0"), ("one", ["fid(1.0)"], "hbr > 2.71 && hbr < 2.72"),
+              ("inf", ["finf()"], "hbr > fbig()"), ("neginf", ["0.0 - finf()"], "hbr == 0.0"), ("nan", ["fnan()"], "hbr != hbr"),
+              ("denormal", ["fden()"], "hbr == 1.0")]),
+    "pow":  ([("zero-neg", ["fid(0.0)", "fid(0.0 - 1.0)"], "division_by_zero"), ("neg-frac", ["fid(0.0 - 1.0)", "fid(0.5)"], "invalid_domain"),
+              ("big", ["fid(10.0)", "fid(100.0)"], "overflow"), ("small", ["fid(10.0)", "fid(0.0 - 100.0)"], "underflow")],
+             [("cube", ["fid(2.0)", "fid(3.0)"], "hbr == 8.0"), ("root", ["fid(2.0)", "fid(0.5)"], "hbr > 1.41 && hbr < 1.42"),
+              ("inf-one", ["finf()", "fid(1.0)"], "hbr > fbig()"), ("nan-zero", ["fnan()", "fid(0.0)"], "hbr == 1.0"),
+              ("nan-one", ["fnan()", "fid(1.0)"], "hbr != hbr")]),
+    "sin":  ([("inf", ["finf()"], "invalid_domain"), ("denormal", ["fden()"], "underflow")],
+             [("zero", ["fid(0.0)"], "hbr == 0.0"), ("one", ["fid(1.0)"], "hbr > 0.84 && hbr < 0.85"), ("nan", ["fnan()"], "hbr != hbr"),
+              ("big", ["fbig()"], "hbr >= 0.0 - 1.0 && hbr <= 1.0")]),
+    "cos":  ([("inf", ["finf()"], "invalid_domain"), ("neginf", ["0.0 - finf()"], "invalid_domain")],
+             [("zero", ["fid(0.0)"], "hbr == 1.0"), ("one", ["fid(1.0)"], "hbr > 0.54 && hbr < 0.55"), ("nan", ["fnan()"], "hbr != hbr"),
+              ("denormal", ["fden()"], "hbr == 1.0")]),
+    "tan":  ([("inf", ["finf()"], "invalid_domain"), ("denormal", ["fden()"], "underflow")],
+             [("zero", ["fid(0.0)"], "hbr == 0.0"), ("one", ["fid(1.0)"], "hbr > 1.55 && hbr < 1.56"), ("nan", ["fnan()"], "hbr != hbr")]),
+}
+# built-ins that never fail: (name, statements ending in the binding of hbr, check, what they print as a line of digits)
+HB_OTHER = [
+    ("print",       ["let hbr = print(zero() + 4321)"], "hbr == 4321", [4321]),
+    ("printl",      ["let hbr = printl(4322L)"], "hbr == 4322L", [4322]),
+    ("printb",      ["let hbr = printb(zero() == 0)"], "hbr", [1]),
+    ("printf",      ["let hbr = printf(fid(1.5))"], "hbr == 1.5", []),
+    ("printf-inf",  ["let hbr = printf(finf())"], "hbr > fbig()", []),
+    ("printf-nan",  ["let hbr = printf(fnan())"], "hbr != hbr", []),
+    ("printf-denormal", ["let hbr = printf(fden())"], "hbr > 0.0", []),
+    ("printd",      ["let hbr = printd(2.5d)"], "hbr == 2.5d", []),
+    ("printc",      ["let hbr = printc('z')", "let hbs = prints(\"\\n\")"], "hbr == 'z'", []),
+    ("prints",      ["let hbr = prints(\"zz\\n\")"], "length(hbr) == 3", []),
+    ("str",         ["let hbr = str(zero() + 12)"], "length(hbr) == 2", []),
+    ("strf",        ["let hbr = strf(fid(1.5))"], "length(hbr) > 0", []),
+    ("strf-inf",    ["let hbr = strf(finf())"], "length(hbr) > 0", []),
+    ("ord",         ["let hbr = ord('a')"], "hbr == 97", []),
+    ("chr",         ["let hbr = chr(zero() + 65)"], "hbr == 'A'", []),
+    ("length",      ["let hbr = length(gstr())"], "hbr == 3", []),
+    ("assert",      ["let hbr = assert(zero() == 0)"], "hbr", []),
+    ("assertf",     ["let hbr = assertf(fid(0.0), 0.1)"], "hbr == 1", []),
+]
+HB_PLACEMENTS = ["before-arguments", "after-arguments", "start-of-main", "in-caller"]
+
+
+def hb_pairs():
+    """-> [(builtin, failing class | None, non-failing class | None)]: every class of every built-in occurs"""
+    out = []
+    for b, (fs, os_) in HB_MATH.items():
+        for i in range(max(len(fs), len(os_))):
+            out.append((b, fs[i % len(fs)], os_[i % len(os_)]))
+    for name, stmts, chk, marks in HB_OTHER:
+        out.append((name, None, (name, stmts, chk, marks)))
+    return out
+
+
+def hb_kind(pair, prefix, placement):
+    """register (once) the fault kind `built-in call after prefix`; -> its name.  Trigger 0 selects the
+    failing argument class, any other trigger the non-failing one."""
+    b, f, o = pair
+    name = "hb:%s:%s/%s:%s:%s" % (b, f[0] if f else "-", o[0] if b in HB_MATH else "-", prefix, placement)
+    if name in KINDS:
+        return name
+    pfx = "".join(st + "; " for st in HB_PREFIX[prefix]) if placement in ("before-arguments", "after-arguments") else ""
+    if b in HB_MATH:
+        n = len(o[1])
+
+        def tmpl(t, f=f, o=o, n=n, b=b, pfx=pfx):
+            args = "".join("let hbx%d = sel(%s, %s, %s); " % (i, t, (f[1][i] if f else o[1][i]), o[1][i]) for i in range(n))
+            call = "let hbr = %s(%s); " % (b, ", ".join("hbx%d" % i for i in range(n)))
+            body = (pfx + args) if placement != "after-arguments" else (args + pfx)
+            return "{ %s%s(%s) ? 9 : 8 }" % (body, call, o[2])
+        KINDS[name] = (f[2] if f else None, tmpl, lambda T: 9, [])
+    else:
+        _nm, stmts, chk, marks = o
+
+        def tmpl(t, stmts=stmts, chk=chk, pfx=pfx):
+            return "{ %s%s(%s) ? 9 : 8 }" % (pfx, "".join(st + "; " for st in stmts), chk)
+        KINDS[name] = (None, tmpl, lambda T: 9, list(marks))
+    return name
+
+
 # ---- FFI calls with a record argument whose string / nested-record fields may be nil ------------
 # shape: string over S (string field), R (nested record P2 {x; y}), I (int field)
 FFILIB = "@C03FFILIB@"          # replaced by the path of the library built at check time
@@ -170,6 +325,10 @@ class Ex:
     def __init__(s, e): s.e = e
     def src(s): return s.e.src()
 
+class Raw:              # a statement of float arithmetic: no int value, no fault (history only)
+    def __init__(s, text): s.text = text
+    def src(s): return s.text
+
 class While:           # var-controlled loop: while (i < n) { body; i = i + 1 }
     def __init__(s, i, n, body): s.i, s.n, s.body = i, n, body
     def src(s):
@@ -270,6 +429,8 @@ class Interp:
                 last = v
             elif isinstance(st, Ex):
                 last = s.ev(st.e, env)
+            elif isinstance(st, Raw):
+                pass
             elif isinstance(st, While):
                 while env[st.i][0] < st.n:
                     s.block(st.body, env, ())
@@ -310,10 +471,13 @@ class Interp:
             return sum({"S": 5, "R": 7, "I": 2}[c] for c in e.shape)
         if isinstance(e, Flt):
             t = s.ev(e.t, env)
-            if t == 0:
+            kd = KINDS[e.kind]
+            if t == 0 and kd[0] is not None:        # kd[0] None: an operation that never fails
                 s.faults += 1
-                raise NevExc(KINDS[e.kind][0])
-            return KINDS[e.kind][2](t)
+                raise NevExc(kd[0])
+            if len(kd) > 3:
+                s.out.extend(kd[3])                 # what the operation itself prints
+            return kd[2](t)
         if isinstance(e, Call):
             vs = [None] * len(e.args)
             for i in reversed(range(len(e.args))):
@@ -328,9 +492,10 @@ class Interp:
 # ------------------------------------------------------------------ templates
 
 class Gen:
-    def __init__(s, rng):
+    def __init__(s, rng, pool=None):
         s.rng = rng
         s.m = 0
+        s.pool = pool or EXC_NAMES       # names used for the clauses that must not match
 
     def marker(s):
         s.m += 1
@@ -355,7 +520,7 @@ class Gen:
         return st
 
     def others(s, exc, n):
-        pool = [x for x in EXC_NAMES if x != exc]
+        pool = [x for x in s.pool if x != exc]
         s.rng.shuffle(pool)
         return pool[:n]
 
@@ -411,7 +576,7 @@ class Gen:
                 cl[lvl] = ([(exc2, s.clause_body(10 * (lvl + 1) + 8))], None)
             else:
                 avoid = [exc] + ([exc2] if exc2 else [])
-                pool = [x for x in EXC_NAMES if x not in avoid]
+                pool = [x for x in s.pool if x not in avoid]
                 rng.shuffle(pool)
                 cl[lvl] = ([(nm, s.clause_body(10 * (lvl + 1) + 4 + i)) for i, nm in enumerate(pool[:rng.randint(0, 2)])], None)
         dm = dmid if dmid is not None else rng.randint(0, 2)
@@ -598,6 +763,56 @@ def family(seed, tier, ffilib=False):
                              fexpr=FfiRec(sh, nils), exc="ffi_fail", decls=decls)
                 p.coords = "ffirec:%s:nil%s:%s" % (sh, "".join(map(str, nils)) or "-", p.coords.split(":", 1)[1].replace(":t1", ""))
                 progs.append(p)
+    # 9. operation history x built-in: every prefix of float/double arithmetic x every argument class of every
+    #    built-in, once with the failing and once with the non-failing arguments; where the prefix runs
+    #    (before / after the arguments are computed, at the start of main, in the caller) and the delivery
+    #    coordinates (clause j levels up, clause order incl. absent, depth, argument position) rotate
+    rng3 = random.Random((seed * 104729) ^ 0xB17)
+    g3 = Gen(rng3, pool=EXC_NAMES + ["overflow", "underflow"])
+    hbdecls = ("", "", HB_HELPERS)
+    pairs = hb_pairs()
+    orders9 = ["first", "last", "only", "dup", "all", "absent"]
+    n9 = 0
+
+    def hist(p, prefix, placement, main_index=-1):
+        raws = [Raw(st) for st in HB_PREFIX[prefix]]
+        if placement == "start-of-main":
+            p.funcs[main_index].body[0:0] = raws
+        elif placement == "in-caller":
+            p.funcs[1].body[3:3] = raws           # fb, right before it calls fc
+        return p
+
+    for pi, prefix in enumerate(HB_PREFIX):
+        for bi, pair in enumerate(pairs):
+            places = HB_PLACEMENTS if tier != "quick" else [HB_PLACEMENTS[(pi + bi + seed) % 4]]
+            for placement in places:
+                kind = hb_kind(pair, prefix, placement)
+                exc = KINDS[kind][0]
+                for trig in ([0] if exc else []) + [rng3.randint(1, 3)]:
+                    d = rng3.randint(0, 3)
+                    j = n9 % 4
+                    order = orders9[(n9 // 4 + pi + bi) % 6]
+                    n9 += 1
+                    p = g3.chain(kind, rng3.randint(0, 2) if d else 0, d, j, order, trig=trig,
+                                 exc=exc or rng3.choice(g3.pool), decls=hbdecls)
+                    progs.append(hist(p, prefix, placement))
+    # ... and inside loops (the history grows with every iteration), closures, recursion, module-level code
+    for bi, pair in enumerate(pairs):
+        if pair[1] is None:
+            continue
+        for shape in ("loop", "closure", "recursion", "toplevel"):
+            prefix = rng3.choice(list(HB_PREFIX))
+            kind = hb_kind(pair, prefix, rng3.choice(HB_PLACEMENTS[:2]))
+            if shape == "loop":
+                p = g3.loop(kind, rng3.randint(0, 2), rng3.randint(0, 2), rng3.choice([1, 2, 3]), 4, rng3.random() < 0.5)
+            elif shape == "closure":
+                p = g3.closure(kind, rng3.randint(0, 2), rng3.randint(0, 2), rng3.choice(["inner", "outer", "none"]), lam=rng3.random() < 0.3)
+            elif shape == "recursion":
+                p = g3.recursion(kind, rng3.randint(2, 3), 0)
+            else:
+                p = g3.toplevel_direct(kind, rng3.randint(0, 2), rng3.randint(0, 2))
+            p.decls = hbdecls
+            progs.append(p)
     # 6. random rest
     extra = 60 if tier == "quick" else 2500
     for _ in range(extra):
